@@ -87,6 +87,7 @@ META = {
     "C10-sys-close-retries-eintr": ("C10", "p_sys_close retries close() on EINTR on every UNIX; needs close() interrupted by a signal while another thread obtains the same descriptor number"),
     "C11-closed-flag-set-after-delivery": ("C11", "closed = TRUE moved to the end of get_string/get_digest; needs the hex-string allocation to fail once, then another read"),
     "C12-rb-root-removal-leaves-red-root": ("C12", "RB remove does not repaint the replacing child when the removed node is the root; needs a two-node tree, root removal, then an insert below the red root"),
+    "C13-rb-replace-runs-insert-fixup": ("C13", "RB insert: the replace exit is folded into the common tail so the insert fix-up also runs on a replaced pair; needs a replacement of a key in a black node with a red parent and a black or missing uncle"),
     "C14-avl-swap-takes-predecessor-value": ("C14", "AVL two-children removal hands the predecessor's value to the notifier; needs an AVL tree with a value notifier and a two-children removal"),
     "C15-remove-loses-prev-node": ("C15", "insert appends at the chain tail and remove's unlink loop no longer advances prev_node; needs removal of a key that is not the oldest of its bucket"),
     "C16-empty-quotes-checked-before-trim": ("C16", "empty-quotes test made before the value is trimmed; needs `key = \"\" ; comment` with a blank between the closing quote and the comment"),
